@@ -4,16 +4,17 @@ import FluteModel.RecvMini
 /-
   Line-protocol driver of engine `recv` (model side).  `Recv` instantiated with the `Mini` object.
 
-    recv cfg <maxErr> <sessTo> <objTo> <maxCache> <once> <check>     -> ok
-    recv rej <now>                                                   datagram rejected by the parser
-    recv tsi <now>                                                   datagram of another TSI
-    recv pkt <now> <toi> <co> <cs> <fdtid|-> <sct|-> <fec:esl:msbl:len|-> <sbn:esi|-> <plen> <ans..>
+    recv cfg <maxErr> <sessTo> <objTo> <maxCache> <once> <check> [harness-only: skew sct fast]  -> ok
+    recv rej <now> <hex>                                             datagram rejected by the parser
+    recv tsi <now> <hex>                                             datagram of another TSI
+    recv expect ...                                                  -> ok  (oracle annotation, implementation side only)
+    recv pkt <now> <hex> <toi> <co> <cs> <fdtid|-> <sct|-> <fec:esl:msbl:len|-> <sbn:esi|-> <plen> <ans..>
          ans = X                                  (XML parser error)
              | A <utf8> <expiresHex> <files>      files = - (no File list) | = (empty) | f,f,..
                f = <toiHex>/<cc>/<tlen>/<oti>     cc = n|nc|ms|e<ntpSecs>   oti = -|fec:esl:msbl
     recv cleanup <now> <stale>
     recv isexp <elapsed>                                             -> exp 0|1
-    recv fz ...                                                      -> fz   (opaque robustness op, not modelled)
+    recv fz ... | recv fzc ...                                       -> fz   (opaque robustness ops, not modelled)
   answers:  <OK|ERR|PANIC> <nb_objects> <nb_objects_error> <events sorted stably by TOI>
 -/
 namespace Flute.Drv.Recv
@@ -130,7 +131,9 @@ def runOp (d : DState) (s : State Mini.Obj) (op : Op) : DState × String :=
 def step (d : DState) (args : List String) : DState × String :=
   match args with
   | "fz" :: _ => (d, "fz")
-  | ["cfg", me, st, ot, mc, once, chk] =>
+  | "fzc" :: _ => (d, "fz")
+  | "expect" :: _ => (d, "ok")
+  | "cfg" :: me :: st :: ot :: mc :: once :: chk :: _ =>
     match nat? me, bool? st, bool? ot, nat? mc, bool? once, bool? chk with
     | some me, some st, some ot, some mc, some once, some chk =>
       ({ st := some (State.init { maxObjectsError := me, sessionTimeout := st, objectTimeout := ot,
@@ -142,15 +145,15 @@ def step (d : DState) (args : List String) : DState × String :=
   | none => (d, "bad-op")
   | some s =>
     match args with
-    | ["rej", now] =>
+    | ["rej", now, _] =>
       match int? now with
       | some now => runOp d s (.data .reject now .err)
       | none => (d, "bad-op")
-    | ["tsi", now] =>
+    | ["tsi", now, _] =>
       match int? now with
       | some now => runOp d s (.data .otherTsi now .err)
       | none => (d, "bad-op")
-    | "pkt" :: now :: toi :: co :: cs :: fid :: sct :: fti :: pid :: plen :: ans =>
+    | "pkt" :: now :: _ :: toi :: co :: cs :: fid :: sct :: fti :: pid :: plen :: ans =>
       match int? now, nat? toi, bool? co, bool? cs, optNat? fid, optInt? sct, fti? fti, pid? pid, nat? plen, ans? ans with
       | some now, some toi, some co, some cs, some fid, some sct, some fti, some pid, some plen, some ans =>
         runOp d s (.data (.pkt { toi, closeObject := co, closeSession := cs, fdtId := fid, sct, fti, pid, plen }) now ans)
